@@ -23,6 +23,8 @@
 EXTENDS Secrets, Integers, Json
 
 CONSTANTS Slates, Kinds, UseCancel, TestRng,
+          DropDelete,   \* seeded mutant of the spec: the invoice finalize forgets to commit the deletion of
+                        \* its context (ContextConsumed and NonceSignsOnce MUST then fail in the model)
           UseSecond,    \* a third wallet w3 answers the same S1 / I1 as well (a second, different, valid
                         \* reply) and the finalizer is handed that reply AFTER it has finalized the first
           ApiModes      \* subset of BOOLEAN: TRUE = the slate's calls go through grin_wallet_api::{Owner, Foreign}
@@ -46,6 +48,7 @@ Issuer(kind)    == IF kind = "selfinv" THEN "w1" ELSE "w2"
 ReplyParts(sl, g) == {Part(AtomN(sl, "rsp", g), AtomK(sl, "rsp", g), TRUE)}
 IniParts(sl) == {Part(AtomN(sl, "ini", 0), AtomK(sl, "ini", 0), FALSE)}
 Finalizer(kind) == IF kind = "inv" THEN "w2" ELSE "w1"
+FinI(s, w, sl, inp) == IF DropDelete THEN [FinalizeInvoice(s, w, sl, inp) EXCEPT !.st = s] ELSE FinalizeInvoice(s, w, sl, inp)
 
 Init == /\ st = [ctx |-> [w \in WS |-> <<>>]]
         /\ flow = [sl \in Slates |-> NoFlow]
@@ -119,7 +122,7 @@ AFinalize(sl) ==
         DoS(sl, r, <<[ev |-> "finalize", w |-> "w1", sl |-> sl, stage |-> "S2", rep |-> f.r1, foreign |-> FALSE, api |-> f.api]>>,
             [f EXCEPT !.stage = "S3"], r.out, ContextConsumed(r.st, "w1", sl))
   \/ /\ f.stage = "I2" /\ f.locked
-     /\ LET r == FinalizeInvoice(st, Issuer(f.kind), sl, ReplyParts(sl, f.r1)) IN
+     /\ LET r == FinI(st, Issuer(f.kind), sl, ReplyParts(sl, f.r1)) IN
         DoS(sl, r, <<[ev |-> "finalize", w |-> Issuer(f.kind), sl |-> sl, stage |-> "I2", rep |-> f.r1, foreign |-> TRUE, api |-> f.api]>>,
             [f EXCEPT !.stage = "I3"], r.out, ContextConsumed(r.st, Issuer(f.kind), sl))
 \* the finalizer is handed the OTHER valid reply after it has finalized: no context, refused
@@ -127,7 +130,8 @@ AFinalizeAgain(sl) ==
   LET f == flow[sl]  w == Finalizer(f.kind) IN
   /\ UseSecond /\ f.second /\ ~f.again /\ f.stage \in {"S3", "I3", "P", "M"}
   /\ LET ok == HasCtx(st, w, sl)
-         r == IF ok THEN Finalize(st, w, sl, ReplyParts(sl, f.nrep)) ELSE Refused(st) IN
+         r == IF ~ok THEN Refused(st)
+              ELSE IF f.kind = "inv" THEN FinI(st, w, sl, ReplyParts(sl, f.nrep)) ELSE Finalize(st, w, sl, ReplyParts(sl, f.nrep)) IN
      DoS(sl, r, <<[ev |-> "finalize", w |-> w, sl |-> sl, stage |-> (IF f.kind = "inv" THEN "I2" ELSE "S2"), rep |-> f.nrep,
                   foreign |-> (f.kind = "inv"), api |-> f.api, again |-> TRUE]>>,
          [f EXCEPT !.again = TRUE], r.out, ok => ContextConsumed(r.st, w, sl))
